@@ -79,6 +79,8 @@ type c16Op struct {
 	Err    string `json:"err,omitempty"`
 	// Fate of an open operation as read from the final log: "stored" / "absent".
 	Fate string `json:"fate,omitempty"`
+	// Waited: the publisher waited the full 20 s for an answer and got none.
+	Waited bool `json:"waited,omitempty"`
 }
 
 func (o *c16Op) String() string {
@@ -249,7 +251,8 @@ func (h *c16Hist) viaAPI(op *c16Op, policy client.AckPolicy, kind string, short 
 			op.Out = c16OutRefused
 		default:
 			op.Out = c16OutOpen
-			if kind == "" {
+			if kind == "" && strings.Contains(strings.ToLower(msg), "deadline") {
+				op.Waited = true
 				c16Unanswered.Add(1)
 			}
 		}
@@ -363,6 +366,7 @@ func (h *c16Hist) viaAsync(s *c16Async, op *c16Op, policy client.AckPolicy) {
 	case <-timer.C:
 		op.Ret = h.now()
 		op.Out, op.Err = c16OutOpen, "no response on the PublishAsync stream"
+		op.Waited = true
 		c16Unanswered.Add(1)
 	}
 }
@@ -410,6 +414,7 @@ func (h *c16Hist) viaRaw(r *c16Raw, op *c16Op, policy client.AckPolicy, wait boo
 		if err != nil {
 			op.Ret = h.now()
 			op.Out, op.Err = c16OutOpen, "no ack: "+err.Error()
+			op.Waited = true
 			c16Unanswered.Add(1)
 			return
 		}
@@ -733,6 +738,13 @@ func (h *c16Hist) checkLog(recs []vfLogRec, st *c16Stats) {
 				if o.E == -1 && !strings.HasSuffix(o.Via, "-none") {
 					st.openAnyAbsent++
 				}
+				if o.Waited && h.answeredLater(o) && h.acksSent(o.Tag) == 0 {
+					// The same publisher's later publish on the same connection
+					// was answered, so the partition had processed this one: it
+					// neither stored it nor told the publisher.
+					h.fail("C16:not-stored-and-no-answer", fmt.Sprintf("publish %s was processed by the partition (a later publish of the same publisher on the same connection was answered) but is not stored and no ack or INCORRECT_OFFSET error was ever sent for it", o), map[string]any{"log": c16LogDesc(recs)})
+					return
+				}
 			}
 			if strings.HasSuffix(o.Via, "-none") && o.Via != "raw-none" {
 				// apiServer.Publish / PublishAsync accepted ack policy NONE on an OCC stream
@@ -756,6 +768,25 @@ func (h *c16Hist) checkLog(recs []vfLogRec, st *c16Stats) {
 			}
 		}
 	}
+}
+
+// answeredLater: did the same publisher get an answer for a later publish sent
+// over the same connection (NATS delivers one connection's publishes on one
+// subject in order)?
+func (h *c16Hist) answeredLater(o *c16Op) bool {
+	base := strings.SplitN(o.Via, "-", 2)[0]
+	for _, x := range h.ops {
+		if x.ID > o.ID && x.Pub == o.Pub && strings.SplitN(x.Via, "-", 2)[0] == base && (x.Out == c16OutOK || x.Out == c16OutRejected) && x.Call > o.Call {
+			return true
+		}
+	}
+	return false
+}
+
+func (h *c16Hist) acksSent(tag string) int {
+	h.amu.Lock()
+	defer h.amu.Unlock()
+	return len(h.sent[tag])
 }
 
 func c16LogDesc(recs []vfLogRec) []string {
@@ -872,13 +903,13 @@ func c16RunHistory(rep *kit.Report, c *vfCluster, srv *Server, cfgDesc string, s
 	wg.Wait()
 	end := h.now()
 	rep.Eval()
+	// A history that was cut short or whose fences were not answered is
+	// inconclusive as a whole; the safety part of the log scan (everything
+	// except the fate of unanswered publishes) is still sound and is run.
 	if h.aborted.Load() {
 		h.inconclusive(fmt.Sprintf("history cut short: %d publishes of this unit waited 20 s without any answer", c16Unanswered.Load()))
-		return
 	}
-	if h.inconc.Load() {
-		return
-	}
+	partial := h.inconc.Load()
 	// Open operations stay open until the end of the history.  A raw NONE
 	// publish carries an ack inbox: the partition answers a reject with a
 	// nack (and a success with nothing), which arrived before the fence ack.
@@ -923,6 +954,10 @@ func c16RunHistory(rep *kit.Report, c *vfCluster, srv *Server, cfgDesc string, s
 		}
 	}
 	lin := "skipped"
+	if partial {
+		rep.Count("histories_partial_(safety_checks_only)", 1)
+		return
+	}
 	if !h.failed.Load() {
 		if c16Linearize == nil {
 			rep.Inconc("porcupine checker not built in (unit must be built with the verifporc tag)")
@@ -992,7 +1027,7 @@ func TestVerifC16Server(t *testing.T) {
 	remove := c16InstallHook()
 	defer remove()
 	root := kit.NewRNG(kit.Mix(kit.Seed(), 0xC16+uint64(len(mode))*131+uint64(mode[0])))
-	nsrv := kit.Scale(6, 16)
+	nsrv := kit.Scale(8, 18)
 	perSrv := kit.Scale(14, 36)
 	hidx := 0
 	for s := 0; s < nsrv && rep.NumViolations() < 4 && c16Unanswered.Load() < c16MaxUnanswered; s++ {
